@@ -75,7 +75,9 @@ def render_modules(eqs: SymEquations,
             name0 = func.__name__
             # keep the `np.` prefix (num_func knows `np`): without it np.max(x, 0) and the builtin max(x, 0) would be
             # the same name in the module
-            func_code = inspect.getsource(func).replace(name0, func_name)
+            # rename the function itself (its `def` and recursive calls) only: a plain str.replace also rewrote every other
+            # identifier containing the name (`def sq(x): return np.sqrt(x)` became `np.<new name>rt(x)`)
+            func_code = re.sub(r'(?<![\w.])' + re.escape(name0) + r'(?!\w)', func_name, inspect.getsource(func))
             code_tfuc[func_name] = func_code
         return code_tfuc
 
